@@ -2,28 +2,40 @@
 
 use crate::engine::Property;
 
+pub mod c05;
+pub mod c07;
 pub mod c08;
 pub mod c09;
+pub mod c10;
 pub mod c13;
 
 pub fn ids() -> Vec<&'static str> {
-    vec!["C08", "C09", "C13"]
+    vec!["C05", "C07", "C08", "C09", "C10", "C13"]
 }
 
 pub fn property(id: &str) -> Option<Property> {
     Some(match id {
+        "C05" => c05::property(),
+        "C07" => c07::property(),
         "C08" => c08::property(),
         "C09" => c09::property(),
+        "C10" => c10::property(),
         "C13" => c13::property(),
         _ => return None,
     })
 }
 
 /// Probes for known findings: (signature, args for `ebv probe`).
-pub fn probes(_id: &str) -> Vec<(String, Vec<String>)> {
-    vec![]
+pub fn probes(id: &str) -> Vec<(String, Vec<String>)> {
+    match id {
+        "C05" => vec![("compute:unbounded-breadth".to_string(), vec!["compute-breadth".to_string()])],
+        _ => vec![],
+    }
 }
 
-pub fn run_probe(_args: &[String]) -> i32 {
-    0
+pub fn run_probe(args: &[String]) -> i32 {
+    match args.first().map(|s| s.as_str()) {
+        Some("compute-breadth") => c05::probe_compute_breadth(),
+        _ => 2,
+    }
 }
